@@ -52,9 +52,6 @@ impl PatProp for SizeFacts {
         if n.has_f1() && ctx.active("unbounded_repeat_nullable_body") {
             return Prep::Excluded("F1:unbounded_repeat_nullable_body");
         }
-        if n.has_bare_backref_cond() {
-            return Prep::Skip("domain:condition-is-bare-backref (parsed as group test)");
-        }
         let facts = match std::panic::catch_unwind(|| analysis(pat, true)) {
             Ok(Ok(f)) => f,
             Ok(Err(_)) => return Prep::Skip("analysis:error"),
